@@ -1053,3 +1053,40 @@ func (c *Ctx) ruleEqDeciders(scope []*ssa.Function) {
 		}
 	}
 }
+
+// ruleNumericPrimitives: "a leaf may be a primitive": the numeric test behind
+// isKnownPrimitive recognises every numeric type of the language - the signed
+// and unsigned integers of every width, both floats and both complex types.
+// Dropping one makes equal leaves of that type incomparable ("Unsupported
+// type") and lets them render as UNKNOWN.
+func (c *Ctx) ruleNumericPrimitives() {
+	rep := c.rep
+	fn := c.anchor("R-COVER", "isNumberPrimitive")
+	if fn == nil {
+		return
+	}
+	have := map[types.BasicKind]bool{}
+	for _, b := range fn.Blocks {
+		for _, in := range b.Instrs {
+			if ta, ok := in.(*ssa.TypeAssert); ok {
+				if bt, ok := ta.AssertedType.(*types.Basic); ok {
+					have[bt.Kind()] = true
+				}
+			}
+		}
+	}
+	want := []types.BasicKind{types.Int, types.Int8, types.Int16, types.Int32, types.Int64,
+		types.Uint, types.Uint8, types.Uint16, types.Uint32, types.Uint64,
+		types.Float32, types.Float64, types.Complex64, types.Complex128}
+	var missing []string
+	for _, k := range want {
+		if !have[k] {
+			missing = append(missing, types.Typ[k].Name())
+		}
+	}
+	if len(missing) == 0 {
+		rep.ok("R-COVER", "isNumberPrimitive", "numeric types", c.p.pos(fn.Pos()), "all 14 numeric types of the language are recognised")
+	} else {
+		rep.bad("R-COVER", "isNumberPrimitive", "numeric types", c.p.pos(fn.Pos()), "numeric type(s) not recognised as primitive: "+strings.Join(missing, ", ")+" (equal leaves of that type would be reported as unsupported)")
+	}
+}
